@@ -14,7 +14,7 @@ GATES = {
               'layout:indented-comment': 2000, 'layout:blank-separated': 500, 'layout:mixed-class-adjacent': 300, 'layout:file-start': 500,
               'layout:file-end': 300, 'layout:after-last-meta-no-postings': 40, 'layout:before-dedent': 300, 'layout:nested-posting-meta': 100,
               'history_steps': 6000, 'handover_claims': 1500, 'manual_claims_judged': 2500, 'restore_checks': 800, 'idempotence_checks': 2500, 'parse_vs_later_checks': 2500,
-              'parse_vs_later_on_copy': 1000, 'assigned_list_claims': 40, 'restore_api_built': 2000, 'empty_selection_calls': 2000, 'comments_given_to_owners': 1500, 'multi_comment_handovers': 60, 'restore_interleaving:explicit-list': 300, 'histories_continued_on_copy': 150},
+              'parse_vs_later_on_copy': 1000, 'assigned_list_claims': 40, 'restore_api_built': 2000, 'empty_selection_calls': 2000, 'comments_given_to_owners': 1500, 'multi_comment_handovers': 60, 'restore_interleaving:explicit-list': 300, 'restore_interleaving:one-by-one': 50, 'histories_continued_on_copy': 150},
     'thorough': {'evaluations': 500000, 'layout:after-last-meta-no-postings': 800},
 }
 RULE = ('case = one document from the comment-layout generator (comment runs, matching or mismatching indentation, adjacent above / below / '
@@ -232,11 +232,20 @@ def run_case(col, r, idx):
                 col.violation('restore:unclaim-interleaving', f'{p}.unclaim_interleaving_comments() left claimed comments behind', wit)
                 return
             explicit = r.random() < 0.5      # hand back exactly what unclaim returned, or let the list look for itself
+            one_by_one = explicit and len(un) >= 2 and r.random() < 0.5
             try:
-                w.claim_interleaving_comments(un) if explicit else w.claim_interleaving_comments()
+                if one_by_one:
+                    # ... or one comment per call, in any order: the others are unowned comments the scan has to step over
+                    order = list(un)
+                    r.shuffle(order)
+                    for c_ in order:
+                        w.claim_interleaving_comments([c_])
+                    col.count('restore_interleaving:one-by-one')
+                else:
+                    w.claim_interleaving_comments(un) if explicit else w.claim_interleaving_comments()
             except ValueError as e:
-                col.violation('restore:claim-interleaving-raised' + (':explicit-list' if explicit else ''),
-                              f'{p}: claim_interleaving_comments({"<what unclaim returned>" if explicit else ""}) right after unclaim_interleaving_comments() raised {e}', wit)
+                col.violation('restore:claim-interleaving-raised' + (':one-by-one' if one_by_one else ':explicit-list' if explicit else ''),
+                              f'{p}: claim_interleaving_comments({"<one of the released comments>" if one_by_one else "<what unclaim returned>" if explicit else ""}) right after unclaim_interleaving_comments() raised {e}', wit)
                 return
             col.count('restore_interleaving' + (':explicit-list' if explicit else ''))
             if attribution.ownership_map(f_on) != base_map:
